@@ -91,41 +91,7 @@ def run(ctx: Ctx) -> None:
                 adders.append(name)
                 break
 
-    # ---- R1 -------------------------------------------------------------------------------
-    n1 = 0
-    for mname, m in wrap.methods.items():
-        cfg = cfg_of(m)
-        fl = flow_of(prog, m)
-        for call in [n for n in m.own_nodes() if _self_attr_call(n, cache_attr) in adders]:
-            n1 += 1
-            assert isinstance(call, ast.Call)
-            val = call.args[1] if len(call.args) > 1 else None
-            evidence: List[Node] = []
-            for b in cfg.nodes:
-                if b.kind != "branch" or b.ast is None:
-                    continue
-                a = b.ast
-                if isinstance(a, ast.Compare) and len(a.ops) == 1 and isinstance(a.comparators[0], ast.Constant) and a.comparators[0].value is None:
-                    if isinstance(a.left, ast.Name) and isinstance(val, ast.Name) and a.left.id == val.id and set(fl.defs_of_use(a.left)) == set(fl.defs_of_use(val)):
-                        if (isinstance(a.ops[0], ast.IsNot) and b.label == "T") or (isinstance(a.ops[0], ast.Is) and b.label == "F"):
-                            evidence.append(b)
-                if b.label == "T" and any(_self_attr_call(x, store_attr) == "has_blob" for x in ast.walk(a)) and not any(
-                        isinstance(x, ast.BoolOp) and isinstance(x.op, ast.Or) for x in ast.walk(a)):
-                    evidence.append(b)
-            for n in m.own_nodes():
-                if _self_attr_call(n, store_attr) == "store_blob":
-                    evidence += done_nodes(cfg, n)
-            desc = f"insertion `{unparse(call, 50)}` happens only with evidence that the wrapped store holds the key"
-            # the value must come from the wrapped store (or be the blob just stored)
-            w = dominated(ctx, m, call, evidence)
-            if w is None:
-                rep.ok("C12.R1", m.qname, desc, m.loc(call))
-            else:
-                rep.bad("C12.R1", m.qname, desc, m.loc(call),
-                        ["path to the insertion without presence evidence:"] + w + [
-                            "counterexample: the wrapped store does not hold the key (absent key, or its store_blob raised); the cache then answers "
-                            "has_blob True / serves the object while the bare store answers False / None"],
-                        stmt_key(call), what="the object cache can hold a key the wrapped store does not hold")
+    n1 = insertion_rule(ctx, "C12.R1")
     rep.floor("C12.R1", n1, 1)
 
     # ---- R2 -------------------------------------------------------------------------------
@@ -138,6 +104,14 @@ def run(ctx: Ctx) -> None:
                 cap_attr = n.targets[0].attr
     if cap_attr is None:
         rep.unknown("C12.R2", cache.qname, "capacity attribute not found", cache.module.relpath)
+    # methods of the cache class that always shrink the mapping to the capacity before returning
+    evicting = set()
+    for name, m in cache.methods.items():
+        cfg = cfg_of(m)
+        lps = [n for n in m.own_nodes() if isinstance(n, ast.While) and _is_evict_loop(n, mapping, cap_attr)]
+        exits_ = [b for lp in lps for b in cfg.nodes if b.kind == "branch" and b.label == "F" and b.ast is lp.test]
+        if lps and cfg.find_path([cfg.entry], [cfg.exit], avoid=exits_) is None:
+            evicting.add(name)
     for name in adders:
         m = cache.methods[name]
         cfg = cfg_of(m)
@@ -145,6 +119,8 @@ def run(ctx: Ctx) -> None:
         for n in m.own_nodes():
             if isinstance(n, ast.While) and _is_evict_loop(n, mapping, cap_attr):
                 loops.append(n)
+        helper_calls = [n for n in m.own_nodes() if isinstance(n, ast.Call) and isinstance(n.func, ast.Attribute) and isinstance(n.func.value, ast.Name)
+                        and n.func.value.id == "self" and n.func.attr in evicting]
         for n in m.own_nodes():
             if not _adds_key(n, mapping):
                 continue
@@ -154,20 +130,38 @@ def run(ctx: Ctx) -> None:
             exits = []
             for lp in loops:
                 exits += [b for b in cfg.nodes if b.kind == "branch" and b.label == "F" and b.ast is lp.test]
+            for hc in helper_calls:
+                exits += done_nodes(cfg, hc)
             bad_path = None
             for d in done_nodes(cfg, st):
                 p = cfg.find_path([d], [cfg.exit], avoid=exits)
                 if p is not None:
                     bad_path = p
-            if loops and bad_path is None:
+            if (loops or helper_calls) and bad_path is None:
                 rep.ok("C12.R2", m.qname, desc, m.loc(st))
             else:
-                loose = [lp for lp in m.own_nodes() if isinstance(lp, ast.While)]
+                loose = [lp for g_ in cache.methods.values() for lp in g_.own_nodes() if isinstance(lp, ast.While)]
                 wit = witness_path(cfg, m, bad_path) if bad_path else []
-                if loose and not loops:
-                    wit = [f"{m.loc(loose[0])}: loop condition `{unparse(loose[0].test)}` is not `len(self.{mapping}) > self.{cap_attr}`: the bound can be exceeded"] + wit
+                if loose and not loops and not helper_calls:
+                    wit = [f"{cache.module.relpath}:{loose[0].lineno}: loop condition `{unparse(loose[0].test)}` is not `len(self.{mapping}) > self.{cap_attr}`: the bound can be exceeded"] + wit
                 rep.bad("C12.R2", m.qname, desc, m.loc(st), wit or ["no eviction loop in this method"], stmt_key(st), what="the cache can retain more objects than its capacity")
     rep.floor("C12.R2", n2, 1)
+    # the configured bound is the capacity: wrapper.__init__(.., num) -> Cache(num) -> self.capacity = num
+    wi = wrap.methods.get("__init__")
+    if wi is not None and ci is not None and cap_attr:
+        ctor = [n for n in wi.own_nodes() if isinstance(n, ast.Call) and prog.dotted(wi, n.func) == cache.qname]
+        desc = "the configured number of objects is passed unchanged to the cache and stored as its capacity"
+        okc = False
+        if ctor and ctor[0].args:
+            a0 = ctor[0].args[0]
+            okc = isinstance(a0, ast.Name) and a0.id in wi.params
+        capdef = [n for n in ci.own_nodes() if isinstance(n, ast.Assign) and isinstance(n.targets[0], ast.Attribute) and n.targets[0].attr == cap_attr]
+        okd = bool(capdef) and isinstance(capdef[0].value, ast.Name) and capdef[0].value.id in ci.params
+        if okc and okd:
+            rep.ok("C12.R2", wrap.qname, desc, wi.loc(ctor[0]))
+        else:
+            rep.bad("C12.R2", wrap.qname, desc, wi.loc(), [f"cache constructed with `{unparse(ctor[0], 50) if ctor else '?'}`; capacity set by `{unparse(capdef[0], 50) if capdef else '?'}`"],
+                    "cap-flow", what="the effective capacity is not the configured number of objects")
     # writers of the capacity and outside access to the mapping
     if cap_attr:
         writers = [(f, st) for (f, v, st) in ctx.heap.attr_stores.get(cap_attr, []) if f_cls(f) is cache]
@@ -189,12 +183,78 @@ def run(ctx: Ctx) -> None:
     else:
         rep.ok("C12.R2", cache.qname, "the cache mapping is not touched outside the cache class", cache.module.relpath)
 
+    n3 = passthrough_rules(ctx, "C12.R3")
+    rep.floor("C12.R3", n3, 6)
+
+    # ---- R4 -------------------------------------------------------------------------------
+    decode_cache_objects(ctx, wrap)
+
+
+def insertion_rule(ctx: Ctx, rule: str) -> int:
+    """every insertion into the object cache is control-dependent on evidence that the wrapped store holds the key"""
+    rep = ctx.report
+    prog = ctx.prog
+    wrap, cache, cache_attr, store_attr, mapping = find_classes(ctx)
+    adders: List[str] = []
+    for name, m in cache.methods.items():
+        if name == "__init__":
+            continue
+        for n in m.own_nodes():
+            if _adds_key(n, mapping):
+                adders.append(name)
+                break
+    # ---- R1 -------------------------------------------------------------------------------
+    n1 = 0
+    for mname, m in wrap.methods.items():
+        cfg = cfg_of(m)
+        fl = flow_of(prog, m)
+        for call in [n for n in m.own_nodes() if _self_attr_call(n, cache_attr) in adders]:
+            n1 += 1
+            assert isinstance(call, ast.Call)
+            val = call.args[1] if len(call.args) > 1 else None
+            evidence: List[Node] = []
+            for b in cfg.nodes:
+                if b.kind != "branch" or b.ast is None:
+                    continue
+                a = b.ast
+                if isinstance(a, ast.Compare) and len(a.ops) == 1 and isinstance(a.comparators[0], ast.Constant) and a.comparators[0].value is None:
+                    from_store = isinstance(val, ast.Name) and bool(fl.defs_of_use(val)) and all(
+                        d_.value is not None and _self_attr_call(d_.value, store_attr) == "fetch_blob" for d_ in fl.defs_of_use(val))
+                    if from_store and isinstance(a.left, ast.Name) and isinstance(val, ast.Name) and a.left.id == val.id and set(fl.defs_of_use(a.left)) == set(fl.defs_of_use(val)):
+                        if (isinstance(a.ops[0], ast.IsNot) and b.label == "T") or (isinstance(a.ops[0], ast.Is) and b.label == "F"):
+                            evidence.append(b)
+                if b.label == "T" and any(_self_attr_call(x, store_attr) == "has_blob" for x in ast.walk(a)) and not any(
+                        isinstance(x, ast.BoolOp) and isinstance(x.op, ast.Or) for x in ast.walk(a)):
+                    evidence.append(b)
+            for n in m.own_nodes():
+                if _self_attr_call(n, store_attr) == "store_blob":
+                    evidence += done_nodes(cfg, n)
+            desc = f"insertion `{unparse(call, 50)}` happens only with evidence that the wrapped store holds the key"
+            # the value must come from the wrapped store (or be the blob just stored)
+            w = dominated(ctx, m, call, evidence)
+            if w is None:
+                rep.ok(rule, m.qname, desc, m.loc(call))
+            else:
+                rep.bad(rule, m.qname, desc, m.loc(call),
+                        ["path to the insertion without presence evidence:"] + w + [
+                            "counterexample: the wrapped store does not hold the key (absent key, or its store_blob raised); the cache then answers "
+                            "has_blob True / serves the object while the bare store answers False / None"],
+                        stmt_key(call), what="the object cache can hold a key the wrapped store does not hold")
+    return n1
+
+
+
+def passthrough_rules(ctx: Ctx, rule: str, only: Optional[List[str]] = None) -> int:
+    """pass-through shapes of the wrapper store (shared with C04 / C07: path answers always come from the wrapped store)"""
+    rep = ctx.report
+    prog = ctx.prog
+    wrap, cache, cache_attr, store_attr, mapping = find_classes(ctx)
     # ---- R3 -------------------------------------------------------------------------------
     n3 = 0
-    for name in ("sync_paths", "fetch_paths", "store_blob", "codec_registry"):
+    for name in (only or ("sync_paths", "fetch_paths", "store_blob", "codec_registry")):
         m = wrap.methods.get(name)
         if m is None:
-            rep.bad("C12.R3", wrap.qname, f"{name} is delegated to the wrapped store", wrap.module.relpath, [f"{wrap.qname} does not define {name}: the base class default answers"],
+            rep.bad(rule, wrap.qname, f"{name} is delegated to the wrapped store", wrap.module.relpath, [f"{wrap.qname} does not define {name}: the base class default answers"],
                     f"missing:{name}", what=f"{name} is not forwarded to the wrapped store")
             continue
         n3 += 1
@@ -233,58 +293,62 @@ def run(ctx: Ctx) -> None:
             if extra_state and name in ("fetch_paths", "sync_paths"):
                 wit.append(f"{m.loc(extra_state[0])}: wrapper state self.{extra_state[0].attr} takes part in {name} (path answers must come from the store every time)")
         if wit:
-            rep.bad("C12.R3", m.qname, desc, m.loc(), wit, f"pass:{name}", what=f"{name} is not a pure pass-through to the wrapped store")
+            rep.bad(rule, m.qname, desc, m.loc(), wit, f"pass:{name}", what=f"{name} is not a pure pass-through to the wrapped store")
         else:
-            rep.ok("C12.R3", m.qname, desc, m.loc())
-    hb = wrap.methods.get("has_blob")
+            rep.ok(rule, m.qname, desc, m.loc())
+    hb = wrap.methods.get("has_blob") if not only else None
     if hb is not None:
         n3 += 1
         rets = [n for n in hb.own_nodes() if isinstance(n, ast.Return) and n.value is not None]
         desc = "has_blob answers `cache hit or wrapped.has_blob(key)`"
-        ok = False
-        if len(rets) == 1 and isinstance(rets[0].value, ast.BoolOp) and isinstance(rets[0].value.op, ast.Or):
-            vals = rets[0].value.values
-            deleg = [v for v in vals if any(_self_attr_call(x, store_attr) == "has_blob" for x in ast.walk(v))]
-            hits = [v for v in vals if any(_self_attr_call(x, cache_attr) is not None for x in ast.walk(v))]
-            ok = len(deleg) == 1 and len(hits) == len(vals) - 1 and not isinstance(deleg[0], ast.UnaryOp)
-        elif len(rets) == 1 and _self_attr_call(rets[0].value, store_attr) == "has_blob":
-            ok = True
+        cfgh = cfg_of(hb)
+        hit_T = [b for b in cfgh.nodes if b.kind == "branch" and b.ast is not None and any(_self_attr_call(x, cache_attr) is not None for x in ast.walk(b.ast))
+                 and ((b.label == "T" and "is not None" in unparse(b.ast)) or (b.label == "F" and unparse(b.ast).endswith("is None")) or (b.label == "T" and " in " in unparse(b.ast)))]
+        n_deleg = 0
+        ok = bool(rets)
+        for r_ in rets:
+            v_ = r_.value
+            parts = v_.values if isinstance(v_, ast.BoolOp) and isinstance(v_.op, ast.Or) else [v_]
+            for pt in parts:
+                if _self_attr_call(pt, store_attr) == "has_blob":
+                    n_deleg += 1
+                elif any(_self_attr_call(x, cache_attr) is not None for x in ast.walk(pt)) and not isinstance(pt, ast.UnaryOp):
+                    pass  # a cache probe
+                elif isinstance(pt, ast.Constant) and pt.value is True and dominated(ctx, hb, r_, hit_T) is None:
+                    pass  # `return True` under a cache hit
+                else:
+                    ok = False
+        ok = ok and n_deleg >= 1
         if ok:
-            rep.ok("C12.R3", hb.qname, desc, hb.loc())
+            rep.ok(rule, hb.qname, desc, hb.loc())
         else:
-            rep.bad("C12.R3", hb.qname, desc, hb.loc(), [f"{hb.loc(r)}: return {unparse(r.value, 70)}" for r in rets], "has_blob", what="has_blob of the wrapper is not `hit or wrapped.has_blob`")
-    fb = wrap.methods.get("fetch_blob")
+            rep.bad(rule, hb.qname, desc, hb.loc(), [f"{hb.loc(r)}: return {unparse(r.value, 70)}" for r in rets], "has_blob", what="has_blob of the wrapper is not `hit or wrapped.has_blob`")
+    fb = wrap.methods.get("fetch_blob") if not only else None
     if fb is not None:
         n3 += 1
-        fl = flow_of(prog, fb)
-        deleg = [n for n in fb.own_nodes() if _self_attr_call(n, store_attr) == "fetch_blob"]
         rets = [n for n in fb.own_nodes() if isinstance(n, ast.Return) and n.value is not None]
         desc = "fetch_blob returns the cached object on a hit and the wrapped store's answer otherwise"
         wit = []
-        if len(deleg) != 1:
-            wit.append(f"{len(deleg)} delegate fetch_blob call(s)")
+        n_deleg = 0
         for r in rets:
             v = r.value
-            if isinstance(v, ast.Name):
-                defs = fl.defs_of_use(v)
-                if not (defs and all(d.value is not None and d.value in deleg for d in defs)):
-                    wit.append(f"{fb.loc(r)}: returns `{v.id}` not defined (only) by the delegate call")
-            elif isinstance(v, ast.Attribute) and isinstance(v.value, ast.Name):
-                defs = fl.defs_of_use(v.value)
-                if not (defs and all(d.value is not None and _self_attr_call(d.value, cache_attr) is not None for d in defs)):
-                    wit.append(f"{fb.loc(r)}: returns `{unparse(v)}` that is not a cache entry")
-            elif isinstance(v, ast.Constant) and v.value is None:
-                pass
-            elif v not in deleg:
-                wit.append(f"{fb.loc(r)}: returns `{unparse(v, 50)}`")
+            if isinstance(v, ast.Constant) and v.value is None:
+                continue
+            sl = ctx.slicer(follow_calls=True, through_records=True).slice(fb, v)
+            has_deleg = sl.find(lambda f_, x: _self_attr_call(x, store_attr) == "fetch_blob") is not None
+            has_cache = sl.find(lambda f_, x: _self_attr_call(x, cache_attr) is not None) is not None
+            if has_deleg:
+                n_deleg += 1
+            if not has_deleg and not has_cache:
+                wit.append(f"{fb.loc(r)}: returns `{unparse(v, 50)}`, neither a cache entry nor the wrapped store's answer")
+        if n_deleg == 0:
+            wit.append("no return value derives from the wrapped store's fetch_blob")
         if wit:
-            rep.bad("C12.R3", fb.qname, desc, fb.loc(), wit, "fetch_blob", what="fetch_blob of the wrapper can answer something else than cache entry / wrapped answer")
+            rep.bad(rule, fb.qname, desc, fb.loc(), wit, "fetch_blob", what="fetch_blob of the wrapper can answer something else than cache entry / wrapped answer")
         else:
-            rep.ok("C12.R3", fb.qname, desc, fb.loc())
-    rep.floor("C12.R3", n3, 6)
+            rep.ok(rule, fb.qname, desc, fb.loc())
+    return n3
 
-    # ---- R4 -------------------------------------------------------------------------------
-    decode_cache_objects(ctx, wrap)
 
 
 def _adds_key(n: ast.AST, mapping: str) -> bool:
